@@ -4,7 +4,8 @@
 
 Extracts the seven DFA tables, yy_rule_can_match_eol, the jam state and state count used by the matching
 loop, YY_NUM_RULES, the start-condition numbering, and every `case N:` action body, classified by its
-normalised text into the closed datatype LC.ScanAction.action (AUnknown otherwise).  The file is
+canonical text (tools/ccanon.py, against the reference texts of tools/action_texts.py) into the closed datatype
+LC.ScanAction.action (AUnknown otherwise).  The file is
 rewritten only when its content changes."""
 import os, re, sys
 
@@ -88,17 +89,27 @@ EOF_BODY = (
     "elseyyterminate();}}")
 
 
+sys.path.insert(0, os.path.dirname(os.path.abspath(__file__)))
+import ccanon
+import action_texts
+
+# canonical form (tools/ccanon.py: blanks, comments, `return(E)`, split declarations, braces around one statement, names
+# of locals) of the reference tree's action texts -> constructor
+CANON = {ccanon.canon(t): c for c, t in action_texts.SCANNER_ACTIONS.items()}
+CANON_EOF = ccanon.canon(action_texts.SCANNER_EOF_ACTION)
+
+
 def classify(body, scs):
-    n = norm(body)
-    if n in FIXED:
-        return FIXED[n]
-    m = re.fullmatch(r"\{BEGIN(\w+);\}", n)
+    n = ccanon.canon(body)
+    if n in CANON:
+        return CANON[n]
+    m = re.fullmatch(r"\{ BEGIN (\w+) ; \}", n)
     if m and m.group(1) in scs:
         return "(ABegin %d)" % scs[m.group(1)]
-    m = re.fullmatch(r"\{return\((\w+)\);\}", n)
+    m = re.fullmatch(r"\{ return (\w+) ; \}", n)
     if m and m.group(1) in TOKS:
         return "(ARet %s)" % TOKS[m.group(1)]
-    m = re.fullmatch(r"\{libconfig_scanctx_append_char\(yyextra,('.{1,2}')\);\}", n)
+    m = re.fullmatch(r"\{ libconfig_scanctx_append_char \( yyextra , ('.{1,2}') \) ; \}", n)
     if m and m.group(1) in CHARS:
         return "(AAppendChar %d)" % CHARS[m.group(1)]
     return None
@@ -170,7 +181,7 @@ def main():
     if not meof:
         die("EOF rule not found")
     eof_scs = re.findall(r"YY_STATE_EOF\((\w+)\)", meof.group(1))
-    eof_ok = norm(meof.group(2)) == EOF_BODY and sorted(eof_scs) == sorted(scs)
+    eof_ok = ccanon.canon(meof.group(2)) == CANON_EOF and sorted(eof_scs) == sorted(scs)
     # the macro YY_RULE_SETUP: at-bol update
     rs = re.search(r"#define YY_RULE_SETUP \\\n(.*?)\n\n", src, re.S)
     bol_ok = rs is not None and norm(rs.group(1).replace("\\\n", "")) == \
@@ -180,7 +191,7 @@ def main():
     reentrant = "yyguts_t" in src and re.search(r"^\s*(static\s+)?(int|char\s*\*|FILE\s*\*)\s+yy(leng|text|in|out|lineno)\s*[;=]", src, re.M) is None
 
     out = []
-    out.append("(* GENERATED by tools/gen_tables.py from %s -- do not edit. *)" % SRC)
+    out.append("(* GENERATED by tools/gen_tables.py from lib/scanner.c -- do not edit. *)")
     out.append("From Coq Require Import List ZArith.")
     out.append("Import ListNotations.")
     out.append("From LC Require Import ScanAction.")
